@@ -244,6 +244,15 @@ pub fn run(c: &Case, rep: &mut Report) {
                 rep.violation(c, "C16/mutable/instruction-or-sequence-count", &format!("{}: {} instructions / {} sequences reported, expected {} / {}", site, n_instr, n_seq, e.groups.len(), e.seqs), &[]);
             }
         }
+        // ---------- traversals started from inside the callbacks of a traversal
+        if let Some(v) = end.str(&format!("imm_nested.{}", idx)) {
+            let toks: Vec<&str> = v.split(' ').filter(|t| !t.is_empty()).collect();
+            let (ni, ns, ne) = (toks.iter().filter(|t| **t == "I").count(), toks.iter().filter(|t| **t == "S").count(), toks.iter().filter(|t| **t == "E").count());
+            rep.count("traversals-with-nested-traversals", 1);
+            if ni != e.groups.len() || ns != e.seqs || ne != e.seqs {
+                rep.violation(c, "C16/immutable/outer-traversal-disturbed-by-a-traversal-started-in-a-callback", &format!("{}: the outer traversal reported {} instructions, {} sequence starts, {} ends; the function has {} instructions in {} sequences", site, ni, ns, ne, e.groups.len(), e.seqs), &[]);
+            }
+        }
         // ---------- a writing visitor: every type id handed out was replaced by a marker; the immutable traversal
         // afterwards must report the marker exactly where it reported a type before
         if let Some(v) = end.str(&format!("rewrite.{}", idx)) {
